@@ -11,9 +11,31 @@ Preserved by every primitive whose side condition `cOkCh` holds; the responses o
 namespace SasLexer
 open Lexer
 
+/-- channel table and payload-kind table for one token -/
+def tokInfoOK (t : TokInfo) : Bool := chanOK t.chan t.ty && payKindOK t.ty t.payload
+
+/-- the payload register holds nothing or a string payload -/
+def PReg (L : Lexer) : Prop := L.payReg = .none ∨ ∃ a b, L.payReg = .str a b
+
 structure ChInv (L : Lexer) : Prop where
-  toks : ∀ t ∈ L.toksR, chanOK t.chan t.ty = true
+  toks : ∀ t ∈ L.toksR, tokInfoOK t = true
   modes : ∀ m ∈ L.modesR, modeOK m
+  preg : PReg L
+
+theorem tokOK_resolve {L : Lexer} (hr : PReg L) {ch : Channel} {ty : TokenType} {p : PaySpec} (h : tokOK ch ty p = true) :
+    chanOK ch ty = true ∧ payKindOK ty (p.resolve L) = true := by
+  simp only [tokOK, Bool.and_eq_true] at h
+  refine ⟨h.1, ?_⟩
+  cases p with
+  | none => exact h.2
+  | int v => exact h.2
+  | float b => exact h.2
+  | reg =>
+    simp only [paySpecOK, Bool.and_eq_true] at h
+    simp only [PaySpec.resolve]
+    rcases hr with hr | ⟨a, b, hr⟩ <;> rw [hr]
+    · exact h.2.2
+    · exact h.2.1
 
 section modesLemmas
 variable (cfg : Cfg) (L : Lexer)
@@ -30,33 +52,58 @@ variable (cfg : Cfg) (L : Lexer)
   unfold Lexer.addStringLiteralFromSrc; simp only; split <;> simp [Lexer.addStringLiteral, Lexer.emitError, Lexer.emitErrorInfo]
 @[simp] theorem pendingTextFrom_modesR (a b k) : (L.pendingTextFrom a b k).2.modesR = L.modesR := by
   unfold Lexer.pendingTextFrom; split <;> simp [Lexer.emitError, Lexer.emitErrorInfo]
+@[simp] theorem lastLineOrAdd_payReg : (L.lastLineOrAdd cfg).2.payReg = L.payReg := by
+  unfold Lexer.lastLineOrAdd; split <;> simp [Lexer.addLine, Lexer.bufAddLine]
+@[simp] theorem startToken_payReg : (L.startToken cfg).payReg = L.payReg := by unfold Lexer.startToken; simp
+@[simp] theorem markIfNone_payReg : (L.markIfNone cfg).payReg = L.payReg := by unfold Lexer.markIfNone; split <;> simp
+@[simp] theorem popMode_payReg : L.popMode.payReg = L.payReg := by unfold Lexer.popMode; split <;> rfl
+@[simp] theorem mode_payReg : L.mode.2.payReg = L.payReg := by unfold Lexer.mode; split <;> rfl
+@[simp] theorem popPendingStat_payReg : L.popPendingStat.payReg = L.payReg := by unfold Lexer.popPendingStat; split <;> rfl
+@[simp] theorem pendingStat_payReg : L.pendingStat.2.payReg = L.payReg := by unfold Lexer.pendingStat; split <;> rfl
+@[simp] theorem setPendingStat_payReg (v) : (L.setPendingStat v).payReg = L.payReg := by unfold Lexer.setPendingStat; split <;> rfl
+@[simp] theorem addStringLiteralFromSrc_payReg (a b) : (L.addStringLiteralFromSrc cfg a b).2.payReg = L.payReg := by
+  unfold Lexer.addStringLiteralFromSrc; simp only; split <;> simp [Lexer.addStringLiteral, Lexer.emitError, Lexer.emitErrorInfo, Lexer.dassert]
+@[simp] theorem pendingTextFrom_payReg (a b k) : (L.pendingTextFrom a b k).2.payReg = L.payReg := by
+  unfold Lexer.pendingTextFrom; split <;> simp [Lexer.emitError, Lexer.emitErrorInfo]
+@[simp] theorem rollback_payReg : L.rollback.payReg = L.payReg := by unfold Lexer.rollback; split <;> rfl
 end modesLemmas
 
-theorem ChInv.congr {L L' : Lexer} (h : ChInv L) (e1 : L'.toksR = L.toksR) (e2 : L'.modesR = L.modesR) : ChInv L' :=
-  ⟨by rw [e1]; exact h.toks, by rw [e2]; exact h.modes⟩
+theorem ChInv.congr {L L' : Lexer} (h : ChInv L) (e1 : L'.toksR = L.toksR) (e2 : L'.modesR = L.modesR)
+    (e3 : L'.payReg = L.payReg := by rfl) : ChInv L' :=
+  ⟨by rw [e1]; exact h.toks, by rw [e2]; exact h.modes, by unfold PReg; rw [e3]; exact h.preg⟩
 
-theorem ChInv.bufAddToken {cfg : Cfg} {L : Lexer} (h : ChInv L) (t : TokInfo) (ht : chanOK t.chan t.ty = true) :
+theorem ChInv.bufAddToken {cfg : Cfg} {L : Lexer} (h : ChInv L) (t : TokInfo) (ht : tokInfoOK t = true) :
     ChInv (L.bufAddToken cfg t) := by
-  refine ⟨?_, h.modes⟩
+  refine ⟨?_, h.modes, h.preg⟩
   intro x hx
   simp only [Lexer.bufAddToken, List.mem_cons] at hx
   rcases hx with rfl | hx
   · exact ht
   · exact h.toks x hx
 
-theorem retype_ok {e n : TokenType} (hn : plainTy n = true) : ∀ {ts ts' : List TokInfo},
-    retypeLastDefaultAux e n ts = some ts' → (∀ t ∈ ts, chanOK t.chan t.ty = true) → ∀ t ∈ ts', chanOK t.chan t.ty = true
+theorem sameKinds_pay {e n : TokenType} (h : sameKinds e n = true) (p : Payload) : payKindOK n p = payKindOK e p := by
+  simp only [sameKinds, Bool.and_eq_true, beq_iff_eq] at h
+  obtain ⟨⟨h1, h2⟩, h3⟩ := h
+  cases p <;> simp [payKindOK, h1, h2, h3]
+
+theorem retype_ok {e n : TokenType} (hn : plainTy n = true) (hk : sameKinds e n = true) : ∀ {ts ts' : List TokInfo},
+    retypeLastDefaultAux e n ts = some ts' → (∀ t ∈ ts, tokInfoOK t = true) → ∀ t ∈ ts', tokInfoOK t = true
   | [], _, h, _ => by simp [retypeLastDefaultAux] at h
   | t :: ts, ts', h, hall => by
     unfold retypeLastDefaultAux at h
     split at h
     · rename_i hc
       split at h
-      · simp only [Option.some.injEq] at h; subst h
+      · rename_i hty
+        simp only [Option.some.injEq] at h; subst h
         intro x hx
         simp only [List.mem_cons] at hx
         rcases hx with rfl | hx
-        · simpa [hc, plainTy] using hn
+        · have h0 := hall t (List.mem_cons_self ..)
+          simp only [tokInfoOK, Bool.and_eq_true] at h0 ⊢
+          simp only [plainTy, tokOK, Bool.and_eq_true] at hn
+          refine ⟨by rw [hc]; exact hn.1, ?_⟩
+          rw [sameKinds_pay hk, ← hty]; exact h0.2
         · exact hall x (List.mem_cons_of_mem _ hx)
       · cases h
     · cases hr : retypeLastDefaultAux e n ts with
@@ -67,10 +114,10 @@ theorem retype_ok {e n : TokenType} (hn : plainTy n = true) : ∀ {ts ts' : List
         simp only [List.mem_cons] at hx
         rcases hx with rfl | hx
         · exact hall _ (List.mem_cons_self ..)
-        · exact retype_ok hn hr (fun y hy => hall y (List.mem_cons_of_mem _ hy)) x hx
+        · exact retype_ok hn hk hr (fun y hy => hall y (List.mem_cons_of_mem _ hy)) x hx
 
 theorem insertSep_ok : ∀ {ts ts' : List TokInfo},
-    insertSepAux ts = some ts' → (∀ t ∈ ts, chanOK t.chan t.ty = true) → ∀ t ∈ ts', chanOK t.chan t.ty = true
+    insertSepAux ts = some ts' → (∀ t ∈ ts, tokInfoOK t = true) → ∀ t ∈ ts', tokInfoOK t = true
   | [], _, h, _ => by simp [insertSepAux] at h
   | t :: ts, ts', h, hall => by
     unfold insertSepAux at h
@@ -97,41 +144,45 @@ theorem mem_truncR {α} {l : List α} {n : Nat} {x : α} (h : x ∈ truncR l n) 
 
 theorem step_ChInv (cfg : Cfg) (o : Op) (L : Lexer) (h : ChInv L) (ho : cOkCh o) :
     ChInv (step cfg o L).2 ∧ respOK o (step cfg o L).1 := by
+  have emitOK : ∀ {ch ty p} (b s l : Nat), tokOK ch ty p = true → tokInfoOK ⟨ch, ty, b, s, l, p.resolve L⟩ = true := by
+    intro ch ty p b s l hh
+    obtain ⟨h1, h2⟩ := tokOK_resolve h.preg hh
+    simp [tokInfoOK, h1, h2]
   cases o <;> simp only [step, respOK, and_true]
   case rest | lastTok | lastDefaultTok | secondLastDefaultTok | hasCheckpoint | nesting | modeDepth | hasMark
       | litIsEmpty | loopProbe => exact h
-  case emitToken ch ty p => exact h.bufAddToken _ ho
+  case emitToken ch ty p => exact h.bufAddToken _ (emitOK _ _ _ ho)
   case emitTokenAtMark ch ty p =>
     unfold Lexer.emitTokenAtMark; split
-    · exact h.bufAddToken _ ho
+    · exact h.bufAddToken _ (emitOK _ _ _ ho)
     · exact h
   case updateLastToken ch ty p =>
     unfold Lexer.updateLastToken
     cases hl : L.toksR with
     | cons t ts =>
-      refine ⟨?_, h.modes⟩
+      refine ⟨?_, h.modes, h.preg⟩
       intro x hx
       simp only [List.mem_cons] at hx
       rcases hx with rfl | hx
-      · exact ho
+      · exact emitOK _ _ _ ho
       · exact h.toks x (by rw [hl]; exact List.mem_cons_of_mem _ hx)
     | nil =>
       simp only
-      exact ChInv.bufAddToken (L := L.emitError .InternalErrorNoTokenToReplace) (h.congr rfl rfl) ⟨ch, ty, _, _, _, _⟩ ho
+      exact ChInv.bufAddToken (L := L.emitError .InternalErrorNoTokenToReplace) (h.congr rfl rfl) ⟨ch, ty, _, _, _, _⟩ (emitOK _ _ _ ho)
   case retypeLastDefault e n =>
     split
     · rename_i ts hts
-      exact ⟨retype_ok ho hts h.toks, h.modes⟩
+      exact ⟨retype_ok ho.1 ho.2 hts h.toks, h.modes, h.preg⟩
     · exact h
   case insertSepBeforeLastDefault =>
     split
     · split
       · rename_i ts hts
-        exact ⟨insertSep_ok hts h.toks, h.modes⟩
+        exact ⟨insertSep_ok hts h.toks, h.modes, h.preg⟩
       · exact h
     · exact h
   case pushMode m =>
-    refine ⟨h.toks, ?_⟩
+    refine ⟨h.toks, ?_, h.preg⟩
     intro x hx
     simp only [Lexer.pushMode, List.mem_cons] at hx
     rcases hx with rfl | hx
@@ -140,19 +191,19 @@ theorem step_ChInv (cfg : Cfg) (o : Op) (L : Lexer) (h : ChInv L) (ho : cOkCh o)
   case popMode =>
     unfold Lexer.popMode
     cases hl : L.modesR with
-    | nil => exact ⟨h.toks, by intro x hx; simp [Lexer.pushMode, Lexer.emitError, Lexer.emitErrorInfo, hl] at hx; subst hx; trivial⟩
-    | cons m ms => exact ⟨h.toks, fun x hx => h.modes x (by rw [hl]; exact List.mem_cons_of_mem _ hx)⟩
+    | nil => exact ⟨h.toks, by intro x hx; simp [Lexer.pushMode, Lexer.emitError, Lexer.emitErrorInfo, hl] at hx; subst hx; trivial, h.preg⟩
+    | cons m ms => exact ⟨h.toks, fun x hx => h.modes x (by rw [hl]; exact List.mem_cons_of_mem _ hx), h.preg⟩
   case mode =>
     unfold Lexer.mode
     cases hl : L.modesR with
     | nil =>
-      exact ⟨⟨h.toks, by intro x hx; simp [Lexer.pushMode, Lexer.emitError, Lexer.emitErrorInfo, hl] at hx; subst hx; trivial⟩, trivial⟩
+      exact ⟨⟨h.toks, by intro x hx; simp [Lexer.pushMode, Lexer.emitError, Lexer.emitErrorInfo, hl] at hx; subst hx; trivial, h.preg⟩, trivial⟩
     | cons m ms => exact ⟨h, h.modes m (by rw [hl]; exact List.mem_cons_self ..)⟩
   case popModeRaw =>
     cases hl : L.modesR with
     | nil => exact ⟨h, by intro x hx; cases hx⟩
     | cons m ms =>
-      refine ⟨⟨h.toks, fun x hx => h.modes x (by rw [hl]; exact List.mem_cons_of_mem _ hx)⟩, ?_⟩
+      refine ⟨⟨h.toks, fun x hx => h.modes x (by rw [hl]; exact List.mem_cons_of_mem _ hx), h.preg⟩, ?_⟩
       intro x hx
       simp only [Option.some.injEq] at hx
       subst hx
@@ -161,7 +212,7 @@ theorem step_ChInv (cfg : Cfg) (o : Op) (L : Lexer) (h : ChInv L) (ho : cOkCh o)
     cases hl : L.modesR with
     | nil => exact h
     | cons m ms =>
-      refine ⟨h.toks, ?_⟩
+      refine ⟨h.toks, ?_, h.preg⟩
       intro x hx
       simp only [List.mem_cons] at hx
       rcases hx with rfl | hx
@@ -170,7 +221,7 @@ theorem step_ChInv (cfg : Cfg) (o : Op) (L : Lexer) (h : ChInv L) (ho : cOkCh o)
   case modifyAt i f =>
     split
     · rename_i ms hms
-      refine ⟨h.toks, ?_⟩
+      refine ⟨h.toks, ?_, h.preg⟩
       unfold Lexer.modifyNthFromBottom at hms
       split at hms
       · simp only at hms
@@ -191,7 +242,7 @@ theorem step_ChInv (cfg : Cfg) (o : Op) (L : Lexer) (h : ChInv L) (ho : cOkCh o)
   case insertModeAt i m =>
     split
     · rename_i ms hms
-      refine ⟨h.toks, ?_⟩
+      refine ⟨h.toks, ?_, h.preg⟩
       unfold Lexer.insertNthFromBottom at hms
       split at hms
       · simp only [Option.some.injEq] at hms
@@ -207,13 +258,22 @@ theorem step_ChInv (cfg : Cfg) (o : Op) (L : Lexer) (h : ChInv L) (ho : cOkCh o)
   case rollback =>
     unfold Lexer.rollback
     split
-    · exact ⟨fun t ht => h.toks t (mem_truncR ht), fun m hm => h.modes m (mem_truncR hm)⟩
+    · exact ⟨fun t ht => h.toks t (mem_truncR ht), fun m hm => h.modes m (mem_truncR hm), h.preg⟩
     · exact h.congr rfl rfl
-  case emitEofAtCursor => exact ChInv.bufAddToken (h.congr (by simp) (by simp)) _ (show chanOK .DEFAULT .EOF = true by decide)
+  case emitEofAtCursor =>
+    exact ChInv.bufAddToken (h.congr (by simp) (by simp) (by simp)) _ (show tokInfoOK ⟨.DEFAULT, .EOF, _, _, _, .none⟩ = true by rfl)
+  case payClear => exact ⟨h.toks, h.modes, Or.inl rfl⟩
+  case litAddDecoded cs => exact ⟨h.toks, h.modes, Or.inr ⟨_, _, rfl⟩⟩
+  case litResolve back =>
+    split
+    · exact ⟨h.toks, h.modes, Or.inl rfl⟩
+    · refine ⟨?_, ?_, Or.inr ⟨_, _, rfl⟩⟩
+      · intro t ht; refine h.toks t ?_; simpa [Lexer.dassert] using ht
+      · intro m hm; refine h.modes m ?_; simpa [Lexer.dassert] using hm
   all_goals first
-    | exact h.congr rfl rfl
-    | (refine h.congr ?_ ?_ <;> first | rfl | (simp [Lexer.pendingText, Lexer.checkpoint, Lexer.clearCheckpoint, Lexer.dassert, Lexer.panic, Lexer.addLine, Lexer.bufAddLine, Lexer.clearMark, Lexer.emitError, Lexer.emitErrorInfo, Lexer.pushPendingStat]; done))
-    | (refine h.congr ?_ ?_ <;> (repeat' split) <;> first | rfl | (simp [Lexer.dassert, Lexer.emitErrorInfo, Lexer.addStringLiteral]; done))
+    | exact h.congr rfl rfl rfl
+    | (refine h.congr ?_ ?_ ?_ <;> first | rfl | (simp [Lexer.pendingText, Lexer.checkpoint, Lexer.clearCheckpoint, Lexer.dassert, Lexer.panic, Lexer.addLine, Lexer.bufAddLine, Lexer.clearMark, Lexer.emitError, Lexer.emitErrorInfo, Lexer.pushPendingStat]; done))
+    | (refine h.congr ?_ ?_ ?_ <;> (repeat' split) <;> first | rfl | (simp [Lexer.dassert, Lexer.emitErrorInfo, Lexer.addStringLiteral]; done))
 
 theorem ChanR_sound (cfg : Cfg) {α : Type} (p : Prog α) : ∀ (Q : α → Prop) (L : Lexer), ChanR p Q → ChInv L →
     ChInv (Prog.run cfg p L).2 ∧ ∀ a, (Prog.run cfg p L).1 = some a → Q a := by
